@@ -11,20 +11,37 @@ open Rs1090 Rs1090.Model
 
 /-! ### per-field lemmas over the full code spaces (kernel enumeration) -/
 
-/-- a velocity component is an integer in [-1022, 1022] -/
-def velOk (r : Int) : Bool := decide (-1022 ≤ r) && decide (r ≤ 1022)
+/-- a velocity component is an integer in [-1022, 1022] LSBs (1 kt; 4 kt for subtype 2: [-4088, 4088]) -/
+def velOk (subtype : Nat) (r : Int) : Bool :=
+  decide (-1022 * velLsb subtype ≤ r) && decide (r ≤ 1022 * velLsb subtype)
 
-/-- all 2 × 2^10 (sign, code) pairs: `(val as i16 - 1) * sign` never overflows -/
-theorem velComponent_enum : ∀ x, x < 2 ^ 11 →
-    Outcome.check velOk (velComponent (x / 1024) (x % 1024)) = true :=
-  Rs1090.Props.C13.enum 11 (by decide +kernel)
+/-- all 2 × 2 × 2^10 (subtype 1 or 2, sign, code) triples: `(val as i16 - 1) * sign * lsb` never overflows -/
+theorem velComponent_enum : ∀ x, x < 2 ^ 12 →
+    Outcome.check (velOk (1 + x / 2048)) (velComponent (1 + x / 2048) (x / 1024 % 2) (x % 1024)) = true :=
+  Rs1090.Props.C13.enum 12 (by decide +kernel)
 
-theorem velComponent_spec (sign val : Nat) (hs : sign < 2 ^ 1) (hv : val < 2 ^ 10) :
-    Outcome.check velOk (velComponent sign val) = true := by
-  have h := velComponent_enum (sign * 1024 + val) (by omega)
-  have e1 : (sign * 1024 + val) / 1024 = sign := by omega
-  have e2 : (sign * 1024 + val) % 1024 = val := by omega
-  rwa [e1, e2] at h
+/-- only `subtype == 2` matters -/
+theorem velLsb_canon (subtype : Nat) : velLsb subtype = velLsb (if subtype = 2 then 2 else 1) := by
+  unfold velLsb; split <;> simp_all
+
+theorem velComponent_spec (subtype sign val : Nat) (hs : sign < 2 ^ 1) (hv : val < 2 ^ 10) :
+    Outcome.check (velOk subtype) (velComponent subtype sign val) = true := by
+  have hc : velComponent subtype sign val = velComponent (if subtype = 2 then 2 else 1) sign val := by
+    unfold velComponent; rw [velLsb_canon]
+  have ho : velOk subtype = velOk (if subtype = 2 then 2 else 1) := by
+    funext r; unfold velOk; rw [velLsb_canon]
+  rw [hc, ho]
+  by_cases h2 : subtype = 2
+  · have h := velComponent_enum (2048 + sign * 1024 + val) (by omega)
+    have e0 : 1 + (2048 + sign * 1024 + val) / 2048 = 2 := by omega
+    have e1 : (2048 + sign * 1024 + val) / 1024 % 2 = sign := by omega
+    have e2 : (2048 + sign * 1024 + val) % 1024 = val := by omega
+    rw [e0, e1, e2] at h; simpa [h2] using h
+  · have h := velComponent_enum (sign * 1024 + val) (by omega)
+    have e0 : 1 + (sign * 1024 + val) / 2048 = 1 := by omega
+    have e1 : (sign * 1024 + val) / 1024 % 2 = sign := by omega
+    have e2 : (sign * 1024 + val) % 1024 = val := by omega
+    rw [e0, e1, e2] at h; simpa [h2] using h
 
 /-- vertical rate: absent, or a multiple of 64 ft/min within ±32640 -/
 def vrateOk : Option Int → Bool
@@ -128,12 +145,12 @@ theorem airspeedFields_good (status : Bool) (hdg asType : Nat) (speed : Option N
       refine ⟨hr1, entryInRange_spec_opt _ _ _ sf_tas ?_⟩
       intro v hv; cases speed <;> simp at hv; subst hv; exact holds_nonneg_jnat _
 
-theorem readGroundSpeed_spec (s : Rd) : wp readGroundSpeed (fun vel _ => VelGood vel) s := by
+theorem readGroundSpeed_spec (subtype : Nat) (s : Rd) : wp (readGroundSpeed subtype) (fun vel _ => VelGood vel) s := by
   unfold readGroundSpeed
   wp_run
-  apply wp_lift_of (Outcome.of_check (velComponent_spec _ _ (by assumption) (by assumption))).1; intro ew _
+  apply wp_lift_of (Outcome.of_check (velComponent_spec _ _ _ (by assumption) (by assumption))).1; intro ew _
   wp_run
-  apply wp_lift_of (Outcome.of_check (velComponent_spec _ _ (by assumption) (by assumption))).1; intro ns _
+  apply wp_lift_of (Outcome.of_check (velComponent_spec _ _ _ (by assumption) (by assumption))).1; intro ns _
   wp_run
   refine ⟨Or.inr (Or.inl rfl), ?_, ?_⟩
   · simp [groundspeedJ, trackJ]
@@ -160,7 +177,7 @@ theorem readVelocity_spec (subtype : Nat) (s : Rd) : wp (readVelocity subtype) (
   wp_if h
   · wp_run; exact velGood_nil
   wp_if h
-  · exact readGroundSpeed_spec _
+  · exact readGroundSpeed_spec _ _
   wp_if h
   · exact readAirspeedSub_spec _
   wp_if h
